@@ -42,6 +42,11 @@ type World struct {
 	// ModeC: client operations run as tasks and commit-worker sites park.
 	ModeC   bool
 	usedART bool
+	// TieSeen: (cf/key) names that had two equal-version copies below L0 at the
+	// end of some maintenance step of this run (sticky: the ingest merge keeps
+	// only one of them afterwards). Maintained by Maint for plain-API checks.
+	TieSeen   map[string]bool
+	TrackTies int // number of keys to track (0 = off)
 }
 
 var worldSeq int
@@ -217,7 +222,14 @@ func (w *World) Maint(op sim.Op) (handled bool) {
 			handled = true
 		}
 	}()
-	return w.maint(op)
+	handled = w.maint(op)
+	if w.TrackTies > 0 && w.DB != nil {
+		if w.TieSeen == nil {
+			w.TieSeen = map[string]bool{}
+		}
+		tieKeys(w, w.TrackTies, w.TieSeen)
+	}
+	return handled
 }
 
 func (w *World) maint(op sim.Op) bool {
@@ -512,6 +524,9 @@ func readErrSig(w *World, api string, err error, cfKey ...[]byte) map[string]str
 					sig["equal_version_tie"] = "yes" // two equal-version copies below L0 (known tie defect, C01)
 				}
 			}
+		}
+		if w.TieSeen[fmt.Sprintf("%d/%s", cfKey[0][0], cfKey[1])] {
+			sig["equal_version_tie"] = "yes" // ... earlier in the run (only one copy may be left after the merge)
 		}
 	}
 	if strings.Contains(err.Error(), "value log file") || strings.Contains(err.Error(), "not found") {
